@@ -1,4 +1,5 @@
 """C16 — context-free transaction and block checks accept exactly rule-conforming objects."""
+import io
 import copy
 
 from hypothesis import strategies as st
@@ -372,11 +373,31 @@ def check_block_case(case):
     raw = W.enc_block(b)
     libx.select(chain)
     try:
-        blk = libx.call('deserialize', CBlock.deserialize, raw)[1]
+        if len(raw) % 5 == 0 and len(raw) < 200000:
+            # the block read through the stream interface from the middle of a large stream (a block file, blocks concatenated
+            # in one buffer): the object is the same as if it had been parsed on its own
+            g_ = io.BytesIO(bytes(4100000) + raw + b'\x00\x01')
+            g_.seek(4100000)
+            blk = libx.call('stream_deserialize-at-offset', CBlock.stream_deserialize, g_)[1]
+        else:
+            blk = libx.call('deserialize', CBlock.deserialize, raw)[1]
         r = libx.call('CheckBlock[%s]' % name, CheckBlock, blk, fCheckPoW=check_pow, fCheckMerkleRoot=check_merkle, cur_time=CUR,
                       allowed=(ValidationError,))
+        r_other = None
+        if chain == 'regtest' and check_pow and (name == 'none' or len(raw) % 3 == 0):
+            # the same block (same object, and parsed afresh) judged again right after ANOTHER chain was selected: the verdict is
+            # that chain's (its work limit, its money range), whatever was concluded a moment ago
+            libx.select('mainnet')
+            exp_o, why_o = block_ok(b, CUR, 'mainnet', True, check_merkle)
+            for o_ in (blk, CBlock.deserialize(raw)):
+                ro = libx.call('CheckBlock-after-switch[%s]' % name, CheckBlock, o_, fCheckPoW=True, fCheckMerkleRoot=check_merkle, cur_time=CUR,
+                               allowed=(ValidationError,))
+                if (ro[0] == 'ok') != exp_o:
+                    r_other = (ro[0] == 'ok', exp_o, why_o)
     finally:
         libx.select('mainnet')
+    if r_other is not None:
+        raise Violation('block/after-chain-switch', 'a block judged under regtest and again after SelectParams(mainnet): library %s, reference %s (%s)' % r_other)
     got = r[0] == 'ok'
     if got != exp:
         raise Violation('block/%s-%s' % ('accepts' if got else 'rejects', why if not exp else name.split('-')[0] + '-valid'),
